@@ -182,11 +182,12 @@ def main(argv):
                     fail("reader#free.layout_independent", dict(source=src), dict(items=items, expected=want))
                 elif stmts[0][4] != (1, max(k + 1 for k, l in enumerate(lines) if l.strip() and not l.strip().startswith("!"))):
                     fail("reader#free.span_exact", dict(source=src), dict(span=stmts[0][4], lines=len(lines)))
-            if "C11" in only:
+            if "C11" in only or "C12" in only:
                 gotc = [i[1] for i in items if i[0] == "comment" and i[1] != ""]
                 if gotc != comments:
                     fail("reader#free.comments_once_in_order", dict(source=src), dict(comments=gotc, expected=comments))
-                if stmts and items[0][0] != "stmt":
+            if "C11" in only:
+                if stmts and items[0][0] != "stmt":  # noqa
                     fail("reader#free.statement_before_its_comments", dict(source=src), dict(items=items))
                 ign = [(i[1], i[2], i[3]) for i in read_items(src, ignore_comments=True)]
                 if ign != [want]:
